@@ -196,10 +196,13 @@ def scenarios(tier, seed):
         out.append(({'cfg': {'seed': sd}, 'ops': [rd(0x1000, 4), rd(0x2000, 4), wr(0x3000, 9), rd(0x1000, 9)]}, 0))
     # (3) delivery latencies in (0, 5 ms]: every uniform latency and every single per-frame deviation
     for sd in (None, 0xA55A):
-        for op in (rd(0x1000, 1), rd(0x1000, 9), wr(0x1000, 1), wr(0x1000, 9)):
+        lops = (rd(0x1000, 1), rd(0x1000, 9), wr(0x1000, 1), wr(0x1000, 9))
+        if not quick:
+            lops += (rd(0x1000, 7), rd(0x1000, 8), rd(0x1000, 16), wr(0x1000, 7), wr(0x1000, 8), wr(0x1000, 16))
+        for op in lops:
             for base in LATS:
                 cfg = {'seed': sd, 'base_lat': base, 'lat_grid': [base] + [x for x in LATS if x != base], 'wake_grid': [50e-6, 1e-3, 5e-3]}
-                out.append(({'cfg': cfg, 'ops': [dict(op)]}, 1 if quick or base != 1e-3 else 2))
+                out.append(({'cfg': cfg, 'ops': [dict(op)]}, 1 if quick else 2))
     # (4) a blocking driver: every send call of either stack takes 0.3 / 3 / 15 ms (longer than a bus round trip), so replies are
     #     handled by the receive thread while the application thread that triggered them is still inside its send call
     for sd in (None, 0xA55A):
